@@ -6,6 +6,7 @@ import ast
 
 from ..context import Ctx
 from ..loader import AnalysisError, norm, own_nodes
+from ..predeval import PredEval, Unsupported
 from ..report import RuleResult
 from .c02 import const_slices
 
@@ -30,40 +31,51 @@ def check(ctx: Ctx) -> list[RuleResult]:
     cfg = ctx.plain_cfg(wm)
 
     # ---- R1 ---------------------------------------------------------------------------
-    r1 = RuleResult("R1", "admission filter of the snapshot", "no RQ, no W (bar 0404), no expired packet unless asked", min_instances=3)
-    rets = [n for n in cfg.nodes if n.kind == "stmt" and isinstance(n.ast, ast.Return)]
-    if len(rets) < 3:
-        raise AnalysisError("wanted_msg: return statements not found")
-    for r in rets:
-        v = r.ast.value  # type: ignore[union-attr]
-        if isinstance(v, ast.Constant) and v.value is False:
-            continue
+    # The filter only compares msg.verb / msg.code with constants and tests two flags, so its complete decision table is
+    # computed by abstract evaluation of its source (predeval.py) and the three admission rules are read off the table.
+    r1 = RuleResult("R1", "admission filter of the snapshot", "decision table of wanted_msg: no RQ, no W (bar 0404), no expired packet unless asked", min_instances=3)
+    rq = ctx.const("ramses_tx.const", "RQ")
+    w_ = ctx.const("ramses_tx.const", "W_")
+    try:
+        tab = PredEval(ctx, wm, domains={"msg.verb": [ctx.const("ramses_tx.const", "I_"), rq, ctx.const("ramses_tx.const", "RP"), w_], "msg.code": ["0404"]}).table()
+    except Unsupported as err:
+        raise AnalysisError(f"wanted_msg is no longer a decision list the evaluator understands: {err}") from err
+    VERB, CODE, EXP, INC = "msg.verb", "msg.code", "msg._expired", "include_expired"
+    if VERB not in tab.subjects or EXP not in tab.atoms or INC not in tab.atoms:
+        raise AnalysisError(f"wanted_msg: expected subjects/flags not found (subjects={list(tab.subjects)}, flags={tab.atoms})")
+    admitted = tab.where(lambda a, r: bool(r) and not (isinstance(r, tuple) and r and r[0] == "raise"))
+    if not admitted:
+        raise AnalysisError("wanted_msg admits nothing: decision table is degenerate")
+    r1.info = {"decision_table_rows": len(tab.rows), "admitted_rows": len(admitted), "subjects": {k: [str(x) for x in v] for k, v in tab.subjects.items()}, "flags": tab.atoms}
+    # (a) requests
+    r1.instances += 1
+    r1.nontrivial += 1
+    bad = [a for a, _r in admitted if a[VERB] == rq]
+    if bad:
+        r1.fail(f"{wm.short}:admits-RQ", wm.loc(), f"the snapshot filter admits a request (RQ): e.g. {tab.describe(bad[0])}")
+    else:
+        r1.ok({"no_RQ_admitted": True})
+    # (b) writes, bar schedule fragments
+    r1.instances += 1
+    r1.nontrivial += 1
+    bad = [a for a, _r in admitted if a[VERB] == w_ and a.get(CODE) != "0404"]
+    if bad:
+        r1.fail(f"{wm.short}:admits-W", wm.loc(), f"the snapshot filter admits a write (W) other than a 0404 schedule fragment: e.g. {tab.describe(bad[0])}")
+    else:
+        r1.ok({"W_admitted_only_for": "0404"})
+    # (c) expired packets only when asked for; one finding per message code that escapes the expiry test
+    by_code: dict[str, dict] = {}
+    for a, _r in admitted:
+        if a[EXP] and not a[INC]:
+            by_code.setdefault(str(a.get(CODE)), a)
+    codes = list(tab.subjects.get(CODE, [])) + ["<other>"]
+    for c in codes:
         r1.instances += 1
         r1.nontrivial += 1
-        txt = norm(v)
-        # which verbs can this return admit?
-        verbs_ok = False
-        why = ""
-        if "msg.verb in (I_, RP)" in txt:
-            verbs_ok = True
-            why = "verb in (I, RP)"
-        elif "msg.verb in (I_, W_)" in txt:
-            # W only for schedule fragments
-            code_guard = [t for t in cfg.nodes if t.kind == "test" and norm(t.ast) == "msg.code == Code._0404" and cfg.edge_dominates(t, "true", r)]
-            verbs_ok = bool(code_guard)
-            why = "verb in (I, W) under code == 0404"
+        if str(c) in by_code:
+            r1.fail(f"{wm.short}:expired-admitted:msg.code={c}", wm.loc(), f"an expired packet is admitted although include_expired is False: {tab.describe(by_code[str(c)])}")
         else:
-            vg = [t for t in cfg.nodes if t.kind == "test" and norm(t.ast) in ("msg.verb in (W_, RQ)", "msg.verb in (RQ, W_)") and cfg.edge_dominates(t, "false", r)]
-            verbs_ok = bool(vg)
-            why = "after `if msg.verb in (W, RQ): return False`"
-        # expiry
-        exp_ok = "include_expired or not msg._expired" in txt or any(t.kind == "test" and norm(t.ast) == "msg._expired and (not include_expired)" and cfg.edge_dominates(t, "false", r) for t in cfg.nodes)
-        if verbs_ok and exp_ok:
-            r1.ok({"return": txt[:60], "verbs": why, "expiry": "dominated by the expiry test"})
-        elif not verbs_ok:
-            r1.fail(f"{wm.short}:{txt[:50]}:verbs", wm.loc(r.ast), f"`return {txt[:60]}` can admit a request/write into the snapshot (no dominating verb test)")
-        else:
-            r1.fail(f"{wm.short}:{txt[:50]}:expired", wm.loc(r.ast), f"`return {txt[:60]}` is reached before the expiry test: an expired packet is kept although include_expired is False")
+            r1.ok({"code": str(c), "expired_admitted_unasked": False})
     out.append(r1)
 
     # ---- R2 ---------------------------------------------------------------------------
